@@ -92,6 +92,20 @@ NETS = {
             ("pa", {"PS-A": 0.25, "PS-B": 0.25, "PS-C": -0.5}, 9.3),
         ],
     },
+    # N6: finite-rate EVSEs only (the sorted algorithms' decisions are then level choices, never bisection results)
+    "N6": {
+        "stations": {
+            "PS-A": (("fin", F8), 208, 30),
+            "PS-B": (("fin", [6, 12, 18, 24, 30]), 240, -90),
+            "PS-C": (("fin", F6), 208, 150),
+        },
+        "constraints": [
+            ("pod", {"PS-A": 1, "PS-B": 1}, 40.5),
+            ("la", {"PS-A": 1, "PS-C": -1}, 30.3),
+            ("lb", {"PS-B": 1, "PS-A": -1}, 33.1),
+            ("lc", {"PS-C": 0.5, "PS-B": -0.5}, 13.7),
+        ],
+    },
 }
 
 
@@ -208,6 +222,9 @@ class Scripted(BaseAlgorithm):
         if p["rule"] == "alt":  # period-dependent level, addresses every station
             lv = [8.0, 16.0, 24.0, 32.0][t % 4]
             return {s: [lv] * L for s in net.station_ids}
+        if p["rule"] == "altcol":  # level is a function of the COLUMN it is written to (time-shift invariant with t0)
+            t0 = p.get("t0", 0)
+            return {s: [[8.0, 16.0, 24.0, 32.0][(t + j - t0 + (i if p.get("skew") else 0)) % 4] for j in range(L)] for i, s in enumerate(sorted(net.station_ids))}
         if p["rule"] == "active-max":
             return {s.station_id: [float(net._EVSEs[s.station_id].max_rate)] * L for s in active_sessions}
         if p["rule"] == "empty":
